@@ -30,6 +30,7 @@ def _engine(timeout_ms):
         from pyvc.engine import Engine
         _ENGINE = Engine(timeout_ms=timeout_ms)
     _ENGINE.timeout_ms = timeout_ms
+    _ENGINE.second_opinion = timeout_ms > 10000      # thorough tier
     return _ENGINE
 
 
@@ -301,6 +302,11 @@ def check_property(pid, a, seed, timeout_ms, t0):
         x["function"] = "pyvc.ghost"
         x["split"] = None
         all_vcs.append(x)
+    disagree = [x for x in all_vcs if x["verdict"] == "disagreement"]
+    for x in disagree:
+        errors.append("solver disagreement on %s :: %s (z3 unsat, cvc5 sat)" % (x["function"], x["label"]))
+    cvc5_checked = sum(1 for x in all_vcs if x.get("cvc5") is not None)
+    cvc5_agree = sum(1 for x in all_vcs if x.get("cvc5") == "unsat")
     refuted = [x for x in all_vcs if x["verdict"] == "refuted"]
     unknown = [x for x in all_vcs if x["verdict"] == "unknown"]
     proved = [x for x in all_vcs if x["verdict"] == "proved"]
@@ -411,6 +417,9 @@ def check_property(pid, a, seed, timeout_ms, t0):
                                    [t for t in trusted if t.startswith("builtin:")])),
         "functions_under_contract": funcs_ev,
         "by_backend": by_backend,
+        "second_opinion_cvc5": {"obligations_rechecked": cvc5_checked, "cvc5_unsat": cvc5_agree,
+                                "cvc5_unknown_or_timeout": cvc5_checked - cvc5_agree - len(disagree),
+                                "disagreements": len(disagree)},
         "solver_time_s": round(sum(x.get("ms", 0) for x in all_vcs) / 1000.0, 2),
         "slow_vcs": [{"function": x["function"], "label": x["label"], "ms": x["ms"]} for x in all_vcs
                      if x.get("ms", 0) > timeout_ms / 3.0],
